@@ -143,6 +143,11 @@ func Render(h map[string]string) (map[string]string, []string) {
 		m.WriteString("  import s1 { prefix sx; }\n")
 	}
 	needS1, needS2 := false, false
+	if v("belongs2") != "" && v("incm") == "" {
+		// s2 is reached through the module's own submodule: m includes s1, s1 includes s2
+		m.WriteString("  include s1;\n")
+		needS1 = true
+	}
 	switch v("incm") {
 	case "s1":
 		m.WriteString("  include s1;\n")
@@ -158,7 +163,7 @@ func Render(h map[string]string) (map[string]string, []string) {
 	if v("incs1") != "" || v("belongs") != "" || v("imp") == "a-submodule" {
 		needS1 = true
 	}
-	if v("incs1") == "s2" || v("incs2") != "" {
+	if v("incs1") == "s2" || v("incs2") != "" || v("belongs2") != "" {
 		needS2 = true
 	}
 	switch v("rev") {
@@ -432,6 +437,10 @@ func Render(h map[string]string) (map[string]string, []string) {
 			inc = " include s2;"
 		case "the-module":
 			inc = " include m;"
+		case "":
+			if v("belongs2") != "" {
+				inc = " include s2;"
+			}
 		}
 		files["s1.yang"] = fmt.Sprintf("submodule s1 { belongs-to %s { prefix m; }%s container s1c { leaf x { type string; } } grouping s1g { leaf y { type string; } } }\n", bt, inc)
 		order = append(order, "s1.yang")
@@ -441,7 +450,16 @@ func Render(h map[string]string) (map[string]string, []string) {
 		if v("incs2") == "s1" {
 			inc = " include s1;"
 		}
-		files["s2.yang"] = fmt.Sprintf("submodule s2 { belongs-to m { prefix m; }%s container s2c; }\n", inc)
+		bt2, extra := "m", ""
+		switch v("belongs2") {
+		case "absent-with-identity":
+			bt2, extra = "nobody", " identity s2i; identity s2j { base s2i; }"
+		case "absent-with-typedef":
+			bt2, extra = "nobody", " typedef s2t { type string; } leaf s2l { type s2t; }"
+		case "module-with-identity":
+			extra = " identity s2i; identity s2j { base m:s2i; } leaf s2r { type identityref { base s2i; } }"
+		}
+		files["s2.yang"] = fmt.Sprintf("submodule s2 { belongs-to %s { prefix m; }%s container s2c;%s }\n", bt2, inc, extra)
 		order = append(order, "s2.yang")
 	}
 	return files, order
